@@ -162,3 +162,15 @@ Proof.
   reflexivity.
 Qed.
 Print Assumptions C16_late_304_not_merged.
+
+(* right resource under every interleaving: what a finished call returned has no body, or the body of an
+   origin call — logged in this phase, or known of the store it started from — for a request with the same
+   URL key (ProvProofs.v: the store invariant is kept by every single step of every thread) *)
+From HC.Proofs Require Import ProvProofs.
+Theorem C16_right_resource : forall T qs w sched cw n H0 i q r,
+  InvS (Gl H0) (w_store w) ->
+  run_schedule T sched (start_of qs w) 0 = (cw, n) ->
+  nth_error qs i = Some q -> nth_error (cw_fg cw) i = Some (TDoneFg q (Done (OResp r))) ->
+  Gl (w_log (cw_w cw) ++ H0) (make_url_key (q_url q)) (p_body r).
+Proof. intros. eapply concurrent_provenance; eassumption. Qed.
+Print Assumptions C16_right_resource.
